@@ -185,6 +185,16 @@ REWRITES = {
     "skip_first_char": (r"\b(\w+)\[(\w+)\.len_utf8\(\)\.\.\]\.to_string\(\)", r"vs2::skip_first_char(\1, \2)", "s[c.len_utf8()..].to_string() where c is the first character of s: the text without its first character"),
     "hashmap_with_capacity": (r"HashMap::with_capacity\((\w+(?:\.\w+)*)\.capacity\(\)\)", r"vs2::map_with_capacity_of(&\1)", "HashMap::with_capacity(v.capacity()) is an empty map (the capacity of an existing Vec can be allocated)"),
     "into_printer": (r"printer: options\.into\(\)", r"printer: TextPrinter::from(options)", "`options.into()` where a TextPrinter is expected is From<TextOutputOptions> for TextPrinter"),
+    "find_eq_or_err": (r"s\s*\.find\('='\)\s*\.ok_or_else\(\|\| PreSetParserError::NoEqualsError\(s\.to_string\(\)\)\)\?", r"(match vps::find_eq(s) { Some(p__) => p__, None => return Err(PreSetParserError::NoEqualsError(vstr::to_string_of(s))) })", "s.find('=') is the byte offset of the first `=`; opt.ok_or_else(|| e)? is the value, or the early return of Err(e)"),
+    "slice_before": (r"\bs\[\.\.pos\]\.to_string\(\)", r"vps::before(s, pos)", "s[..pos].to_string(): the text before byte offset pos (a character boundary: the offset of an ASCII character found by find)"),
+    "slice_after": (r"\bs\[pos \+ 1\.\.\]\.to_string\(\)", r"vps::after(s, pos)", "s[pos + 1..].to_string(): the text behind the one-byte character at byte offset pos"),
+    "trim_str": (r"\bkey\.trim\(\)", r"vps::trim_str(&key)", "str::trim: a function of the text (trim_of)"),
+    "key_to_string": (r"\b(key|macro_name)\.to_string\(\)", r"vstr::to_string_of(\1)", "&str::to_string() is a String with the same text"),
+    "map_err_io": (r"\b(reader\.\w+\(\))\.map_err\(SelectionParseError::from\)\?", r"(match \1 { Ok(v__) => v__, Err(e__) => return Err(PreSetParserError::from(SelectionParseError::from(e__))) })", "r.map_err(f)? is the value, or the early return of Err(From::from(f(e)))"),
+    "strip_at": (r"\bkey\.strip_prefix\('@'\)", r"vps::strip_at(&key)", "str::strip_prefix('@'): the text behind a leading `@`, if there is one"),
+    "str_is_empty": (r"\bmacro_name\.is_empty\(\)", r"vps::str_is_empty(macro_name)", "str::is_empty: the text has no characters"),
+    "s_to_owned": (r"\bs\.to_owned\(\)", r"vstr::to_string_of(s)", "&str::to_owned() is a String with the same text"),
+    "get_or_empty_value": (r"value\s*\.get\(&context\)\s*\.ok_or_else\(\|\| PreSetParserError::EmptyValue\(s\.to_string\(\)\)\)\?", r"(match value.get(&context) { Some(v__) => v__, None => return Err(PreSetParserError::EmptyValue(vstr::to_string_of(s))) })", "opt.ok_or_else(|| e)? is the value, or the early return of Err(e)"),
     "pub_crate": (r"\bpub\(crate\)\s+", r"pub ", "visibility is irrelevant in a single file"),
     "deref_clone": (
         r"(\w+)\.deref\(\)\.clone\(\)", r"vrc::deref_clone(&\1)", "Rc<T>::deref().clone() clones the pointee"),
